@@ -500,4 +500,425 @@ theorem validate_none_iff (key val : Str) :
             · intro h; omega
           · simp only [hv, if_false, true_iff]; omega
 
+/-! ### one accepted entry through `write_fits_core` / `read_fits_core` -/
+
+/-- keys which cfitsio stores verbatim (the complement is the list of known findings of C16: empty or blank key,
+    leading/trailing blank, explicit `HIERARCH ` prefix, END / HISTORY / CONTINUE, non-printable characters) -/
+structure PlainKey (k : Str) : Prop where
+  ne : k ≠ []
+  head : k.head? ≠ some ' '
+  last : k.getLast? ≠ some ' '
+  noHier : hierPrefix.isPrefixOf k = false
+  notEnd : k ≠ endKey
+  notHistory : k ≠ historyKey
+  notContinue : k ≠ continueKey
+  print : ∀ c ∈ k, printable c = true
+
+/-- values which `ffprec` does not alter -/
+def PlainVal (v : Str) : Prop := ∀ c ∈ v, printable c = true
+
+/-- number of blanks a FITS round trip appends to the value `v` stored under key `k` -/
+def padOf (k v : Str) : Nat :=
+  if k.length ≤ 8 then 8 - (v.length + countQuotes v)
+  else min (8 - (v.length + countQuotes v)) (67 - k.length - (v.length + countQuotes v))
+
+theorem padOf_le (k v : Str) : padOf k v ≤ 8 := by unfold padOf; split <;> omega
+
+theorem printable_quoted (h : List Char) (w : Str) (m : Nat) (hh : ∀ c ∈ h, printable c = true)
+    (hw : ∀ c ∈ w, printable c = true) : ∀ c ∈ h ++ quoted w ++ blanks m, printable c = true := by
+  intro c hc
+  rcases List.mem_append.mp hc with hc | hc
+  · rcases List.mem_append.mp hc with hc | hc
+    · exact hh c hc
+    · unfold quoted at hc
+      rcases List.mem_cons.mp hc with rfl | hc
+      · decide
+      · rcases List.mem_append.mp hc with hc | hc
+        · exact printable_dbl w hw c hc
+        · have : c = '\'' := by simpa using hc
+          subst this; decide
+  · exact printable_blanks m c hc
+
+theorem length_dbl_pad (v : Str) (p : Nat) : (dbl (v ++ blanks p)).length = (dbl v).length + p := by
+  rw [dbl_append, dbl_blanks, List.length_append, length_blanks]
+
+/-- the card of an entry, given the (unpadded) text `ffmkky` produced, and what the reader makes of it -/
+theorem entry_of_text (k v w : Str) (h : List Char) (hmk : mkCard k (ffs2c v) = some (h ++ quoted w))
+    (hh : ∀ c ∈ h, printable c = true) (hw : ∀ c ∈ w, printable c = true) (hres : reserved k = false)
+    (hread : ffgknm (h ++ quoted w) = k ∧ stripValue (ffpsvc (h ++ quoted w)) = w ∧ isEndCard (h ++ quoted w) = false)
+    (hl : 8 ≤ h.length) :
+    ∃ card, cardOf (k, v) = some card ∧ isEndCard card = false ∧ entryOfCard card = some (k, w) := by
+  refine ⟨h ++ quoted w ++ blanks (80 - (h ++ quoted w).length), ?_, ?_, ?_⟩
+  · unfold cardOf
+    simp only [hmk, Option.map_some]
+    rw [map_sanitize _ (printable_quoted h w _ hh hw)]
+  · have := hread.2.2
+    unfold isEndCard at this ⊢
+    rw [List.append_assoc, List.take_append_of_le_length hl]
+    rw [List.take_append_of_le_length hl] at this
+    exact this
+  · unfold entryOfCard
+    simp only [rstrip_card, hread.1, hres, Bool.false_eq_true, if_false, hread.2.1]
+
+theorem entry_survives (k v : Str) (hval : validate k v = none) (hk : PlainKey k) (hv : PlainVal v) :
+    ∃ card, cardOf (k, v) = some card ∧ isEndCard card = false ∧
+      entryOfCard card = some (k, v ++ blanks (padOf k v)) := by
+  obtain ⟨hres, hshort, hlong⟩ := (validate_none_iff k v).mp hval
+  have hl := length_dbl v
+  have hwp : ∀ p, ∀ c ∈ v ++ blanks p, printable c = true := by
+    intro p c hc
+    rcases List.mem_append.mp hc with hc | hc
+    · exact hv c hc
+    · exact printable_blanks p c hc
+  by_cases hlen : k.length ≤ 8
+  · obtain ⟨ha, hd⟩ := hshort hlen
+    have hp : padOf k v = 8 - (dbl v).length := by unfold padOf; rw [if_pos hlen, hl]
+    rw [hp]
+    have hwl : (dbl (v ++ blanks (8 - (dbl v).length))).length ≤ 68 := by rw [length_dbl_pad]; omega
+    refine entry_of_text k v _ (k ++ blanks (8 - k.length) ++ ['=', ' ']) ?_ ?_ (hwp _) hres ?_ ?_
+    · rw [mkCard_short k v hlen ha (by omega)]
+      simp [quoted, dbl_append, dbl_blanks]
+    · intro c hc
+      rcases List.mem_append.mp hc with hc | hc
+      · rcases List.mem_append.mp hc with hc | hc
+        · exact hk.print c hc
+        · exact printable_blanks _ c hc
+      · exact (show ∀ y ∈ ['=', ' '], printable y = true by decide) c hc
+    · have := read_std k (v ++ blanks (8 - (dbl v).length)) hlen hk.ne ha hres hk.notEnd hk.notHistory hk.notContinue hwl
+      simpa [List.append_assoc] using this
+    · simp only [List.length_append, length_blanks, List.length_cons, List.length_nil]; omega
+  · have h9 : 9 ≤ k.length := by omega
+    obtain ⟨⟨heq, _⟩, h66, hfit⟩ := hlong h9
+    have hp : padOf k v = min (8 - (dbl v).length) (67 - k.length - (dbl v).length) := by
+      unfold padOf; rw [if_neg hlen, hl]
+    rw [hp]
+    obtain ⟨p, hpp⟩ : ∃ p, p = min (8 - (dbl v).length) (67 - k.length - (dbl v).length) := ⟨_, rfl⟩
+    rw [← hpp]
+    have hwl : (dbl (v ++ blanks p)).length ≤ 68 := by rw [length_dbl_pad]; omega
+    obtain ⟨j, hj⟩ : ∃ j, hierSep k.length (dbl v).length = blanks j ++ ['=', ' '] := by
+      unfold hierSep; split
+      · exact ⟨0, rfl⟩
+      · exact ⟨1, rfl⟩
+    refine entry_of_text k v _ (hierPrefix ++ (k ++ blanks j) ++ ['=', ' ']) ?_ ?_ (hwp _) hres ?_ ?_
+    · rw [mkCard_long k v h9 h66 (by omega) hk.head hk.last heq hk.noHier, hj, ← hpp]
+      simp [quoted, dbl_append, dbl_blanks]
+    · intro c hc
+      rcases List.mem_append.mp hc with hc | hc
+      · rcases List.mem_append.mp hc with hc | hc
+        · exact (show ∀ y ∈ hierPrefix, printable y = true by decide) c hc
+        · rcases List.mem_append.mp hc with hc | hc
+          · exact hk.print c hc
+          · exact printable_blanks _ c hc
+      · exact (show ∀ y ∈ ['=', ' '], printable y = true by decide) c hc
+    · have := read_hier k (v ++ blanks p) j hk.ne hk.head hk.last heq hwl
+      simpa [List.append_assoc] using this
+    · simp only [List.length_append, length_blanks, List.length_cons, List.length_nil, hierPrefix]; omega
+
+/-! ### whole stores -/
+
+/-- every entry was accepted by `write_key` and is stored verbatim by cfitsio -/
+def Accepted (st : Store) : Prop := ∀ e ∈ st, validate e.1 e.2 = none ∧ PlainKey e.1 ∧ PlainVal e.2
+
+/-- the store with every value padded as a FITS round trip pads it -/
+def padStore (st : Store) : Store := st.map fun e => (e.1, e.2 ++ blanks (padOf e.1 e.2))
+
+theorem untilEnd_id (cards : List (List Char)) (h : ∀ c ∈ cards, isEndCard c = false) : untilEnd cards = cards := by
+  induction cards with
+  | nil => rfl
+  | cons c r ih =>
+    simp only [untilEnd, h c (by simp), Bool.false_eq_true, if_false]
+    rw [ih (fun x hx => h x (by simp [hx]))]
+
+theorem cards_of_accepted (st : Store) (h : Accepted st) :
+    ∃ cards, st.mapM cardOf = some cards ∧ (∀ c ∈ cards, isEndCard c = false) ∧
+      cards.filterMap entryOfCard = padStore st := by
+  induction st with
+  | nil => exact ⟨[], rfl, by simp, rfl⟩
+  | cons e r ih =>
+    obtain ⟨cards, h1, h2, h3⟩ := ih (fun x hx => h x (by simp [hx]))
+    obtain ⟨hv, hk, hp⟩ := h e (by simp)
+    obtain ⟨card, c1, c2, c3⟩ := entry_survives e.1 e.2 hv hk hp
+    refine ⟨card :: cards, ?_, ?_, ?_⟩
+    · rw [List.mapM_cons, show cardOf e = some card from c1, h1]; rfl
+    · intro c hc
+      rcases List.mem_cons.mp hc with rfl | hc
+      · exact c2
+      · exact h2 c hc
+    · rw [List.filterMap_cons, c3, h3]; rfl
+
+/-- **whole stores**: writing every entry of an accepted store and reading the cards back gives the same entries,
+    in the same order, each value followed by its padding blanks. -/
+theorem fitsTrip_accepted (st : Store) (h : Accepted st) : fitsTrip st = some (padStore st) := by
+  obtain ⟨cards, h1, h2, h3⟩ := cards_of_accepted st h
+  unfold fitsTrip
+  rw [h1, Option.map_some, untilEnd_id cards h2, h3]
+
+theorem keys_padStore (st : Store) : keys (padStore st) = keys st := by
+  simp [keys, padStore, List.map_map, Function.comp_def]
+
+theorem getAux_padStore (st : Store) (k : Str) :
+    getAux (padStore st) k = (getAux st k).map fun v => v ++ blanks (padOf k v) := by
+  induction st with
+  | nil => rfl
+  | cons e r ih =>
+    obtain ⟨a, b⟩ := e
+    show getAux ((a, b ++ blanks (padOf a b)) :: padStore r) k = _
+    simp only [getAux]
+    by_cases hk : (a == k) = true
+    · have : a = k := by simpa using hk
+      subst this; simp
+    · simp only [hk, Bool.false_eq_true, if_false]; exact ih
+
+theorem countQuotes_pad (v : Str) (p : Nat) :
+    (v ++ blanks p).length + countQuotes (v ++ blanks p) = v.length + countQuotes v + p := by
+  rw [← length_dbl, ← length_dbl, length_dbl_pad]
+
+theorem padOf_pad (k v : Str) : padOf k (v ++ blanks (padOf k v)) = 0 := by
+  have h := countQuotes_pad v (padOf k v)
+  unfold padOf at h ⊢
+  split
+  · rename_i hk; rw [if_pos hk] at h; omega
+  · rename_i hk; rw [if_neg hk] at h; omega
+
+theorem padStore_idem (st : Store) : padStore (padStore st) = padStore st := by
+  unfold padStore
+  rw [List.map_map]
+  apply List.map_congr_left
+  intro e _
+  simp only [Function.comp_def, padOf_pad]
+  simp [blanks]
+
+theorem accepted_padStore (st : Store) (h : Accepted st) : Accepted (padStore st) := by
+  intro e he
+  obtain ⟨x, hx, rfl⟩ := List.mem_map.mp he
+  obtain ⟨hv, hk, hp⟩ := h x hx
+  refine ⟨?_, hk, ?_⟩
+  · have hc := countQuotes_pad x.2 (padOf x.1 x.2)
+    obtain ⟨hres, hshort, hlong⟩ := (validate_none_iff x.1 x.2).mp hv
+    rw [validate_none_iff]
+    refine ⟨hres, ?_, ?_⟩
+    · intro hl
+      have hl : x.1.length ≤ 8 := hl
+      obtain ⟨ha, hd⟩ := hshort hl
+      refine ⟨ha, ?_⟩
+      show (x.2 ++ blanks (padOf x.1 x.2)).length + countQuotes (x.2 ++ blanks (padOf x.1 x.2)) ≤ 68
+      rw [hc]; unfold padOf; rw [if_pos hl]; omega
+    · intro hl
+      have hl : 9 ≤ x.1.length := hl
+      obtain ⟨hs, h66, hfit⟩ := hlong hl
+      refine ⟨hs, h66, ?_⟩
+      show x.1.length + ((x.2 ++ blanks (padOf x.1 x.2)).length + countQuotes (x.2 ++ blanks (padOf x.1 x.2))) ≤ 67
+      rw [hc]; unfold padOf; rw [if_neg (by omega)]; omega
+  · intro c hc
+    rcases List.mem_append.mp hc with hc | hc
+    · exact hp c hc
+    · exact printable_blanks _ c hc
+
+/-! ### the operations keep the store accepted -/
+
+theorem mem_setFirst (st : Store) (k v : Str) (e : Str × Str) (h : e ∈ setFirst st k v) : e ∈ st ∨ e = (k, v) := by
+  induction st with
+  | nil => simp [setFirst] at h
+  | cons x r ih =>
+    obtain ⟨a, b⟩ := x
+    unfold setFirst at h
+    by_cases hk : (a == k) = true
+    · have hak : a = k := by simpa using hk
+      rw [if_pos hk] at h
+      rcases List.mem_cons.mp h with h | h
+      · right; rw [h, hak]
+      · left; exact List.mem_cons_of_mem _ h
+    · rw [if_neg hk] at h
+      rcases List.mem_cons.mp h with h | h
+      · left; rw [h]; exact List.mem_cons_self
+      · rcases ih h with h | h
+        · left; exact List.mem_cons_of_mem _ h
+        · right; exact h
+
+theorem mem_eraseFirst (st : Store) (k : Str) (e : Str × Str) (h : e ∈ eraseFirst st k) : e ∈ st := by
+  induction st with
+  | nil => simp [eraseFirst] at h
+  | cons x r ih =>
+    obtain ⟨a, b⟩ := x
+    unfold eraseFirst at h
+    by_cases hk : (a == k) = true
+    · rw [if_pos hk] at h; exact List.mem_cons_of_mem _ h
+    · rw [if_neg hk] at h
+      rcases List.mem_cons.mp h with h | h
+      · rw [h]; exact List.mem_cons_self
+      · exact List.mem_cons_of_mem _ (ih h)
+
+theorem accepted_writeKey (st : Store) (k v : Str) (h : Accepted st) (hk : PlainKey k) (hv : PlainVal v) :
+    Accepted (writeKey st k v).2 := by
+  unfold writeKey
+  cases hval : validate k v with
+  | some e => exact h
+  | none =>
+    by_cases hh : hasKey st k = true
+    · simp only [hh, if_true]
+      intro e he
+      rcases mem_setFirst st k v e he with he | he
+      · exact h e he
+      · rw [he]; exact ⟨hval, hk, hv⟩
+    · simp only [hh, Bool.false_eq_true, if_false]
+      intro e he
+      rcases List.mem_append.mp he with he | he
+      · exact h e he
+      · have : e = (k, v) := by simpa using he
+        rw [this]; exact ⟨hval, hk, hv⟩
+
+theorem accepted_removeKey (st : Store) (k : Str) (h : Accepted st) : Accepted (removeKey st k).2 := by
+  unfold removeKey
+  by_cases hh : hasKey st k = true
+  · simp only [hh, if_true]; exact fun e he => h e (mem_eraseFirst st k e he)
+  · simp only [hh, Bool.false_eq_true, if_false]; exact h
+
+theorem plainVal_showInt (n : Int) : PlainVal (showInt n) := by
+  have hd : ∀ m, ∀ c ∈ showNat m, printable c = true := by
+    intro m c hc
+    have := showNat_allDigits m c hc
+    exact (alnum_facts c (by simp [this])).1
+  unfold showInt
+  split
+  · intro c hc
+    rcases List.mem_cons.mp hc with rfl | hc
+    · decide
+    · exact hd _ c hc
+  · exact hd _
+
+/-! ### `reservedFitsKeyword` is the prefix filter of its table -/
+
+theorem strncmpEq_prefix (lit key : List Char) (hl : '\x00' ∉ lit) :
+    strncmpEq lit.length (cstr lit) (cstr key) = lit.isPrefixOf key := by
+  induction lit generalizing key with
+  | nil => simp [strncmpEq]
+  | cons a r ih =>
+    have ha : a ≠ '\x00' := fun x => hl (by simp [x])
+    have hr : '\x00' ∉ r := fun x => hl (by simp [x])
+    cases key with
+    | nil =>
+      simp only [cstr, List.cons_append, List.nil_append, List.length_cons, strncmpEq, ne_eq, ha, not_false_eq_true, if_true,
+        List.isPrefixOf]
+    | cons b s =>
+      simp only [cstr, List.cons_append, List.length_cons, strncmpEq, List.isPrefixOf]
+      by_cases hab : a = b
+      · subst hab
+        simp only [ne_eq, not_true_eq_false, if_false, ha, beq_self_eq_true, Bool.true_and]
+        exact ih s hr
+      · simp [hab]
+
+theorem reserved_table_facts : ∀ p ∈ C16.reservedPrefixes, p.2 = p.1.length ∧ '\x00' ∉ p.1 := by decide
+
+/-- `reservedFitsKeyword(key)` holds exactly when one of the literals of its table is a prefix of `key` -/
+theorem reserved_iff_prefix (key : Str) : reserved key = true ↔ ∃ p ∈ C16.reservedPrefixes, p.1 <+: key := by
+  unfold reserved
+  rw [List.any_eq_true]
+  constructor
+  · rintro ⟨p, hp, h⟩
+    obtain ⟨h1, h2⟩ := reserved_table_facts p hp
+    refine ⟨p, hp, ?_⟩
+    have : strncmpEq p.2 (cstr p.1) (cstr key) = true := h
+    rw [h1, strncmpEq_prefix p.1 key h2] at this
+    exact List.isPrefixOf_iff_prefix.mp this
+  · rintro ⟨p, hp, h⟩
+    obtain ⟨h1, h2⟩ := reserved_table_facts p hp
+    refine ⟨p, hp, ?_⟩
+    show strncmpEq p.2 (cstr p.1) (cstr key) = true
+    rw [h1, strncmpEq_prefix p.1 key h2]
+    exact List.isPrefixOf_iff_prefix.mpr h
+
+theorem dropWhile_blanks_append' (n : Nat) (l : List Char) :
+    (blanks n ++ l).dropWhile (· == ' ') = l.dropWhile (· == ' ') := by
+  induction n with
+  | zero => rfl
+  | succ n ih =>
+    show ((' ' :: blanks n) ++ l).dropWhile (· == ' ') = _
+    rw [List.cons_append, List.dropWhile_cons_of_pos (by decide)]; exact ih
+
+/-- padding blanks are trailing blanks -/
+theorem rstrip_pad (v : Str) (p : Nat) : rstrip (v ++ blanks p) = rstrip v := by
+  unfold rstrip
+  rw [List.reverse_append, reverse_blanks, dropWhile_blanks_append']
+
+theorem rstrip_padStore (st : Store) :
+    (padStore st).map (fun e => (e.1, rstrip e.2)) = st.map (fun e => (e.1, rstrip e.2)) := by
+  unfold padStore
+  rw [List.map_map]
+  apply List.map_congr_left
+  intro e _
+  simp only [Function.comp_def, rstrip_pad]
+
+/-- cards whose keyword is reserved (the structural cards of the primary header) do not become entries -/
+theorem filterMap_reserved_cards (pre cards : List (List Char))
+    (h : ∀ c ∈ pre, reserved (ffgknm (rstrip c)) = true) :
+    (pre ++ cards).filterMap entryOfCard = cards.filterMap entryOfCard := by
+  induction pre with
+  | nil => rfl
+  | cons c r ih =>
+    have hc : entryOfCard c = none := by
+      unfold entryOfCard; simp only [h c (by simp), if_true]
+    rw [List.cons_append, List.filterMap_cons, hc]
+    exact ih (fun x hx => h x (by simp [hx]))
+
+/-! ### histories -/
+
+/-- operations whose keys and values cfitsio stores verbatim -/
+def PlainOp : Op → Prop
+  | .writeStr k v | .writeText k v => PlainKey k ∧ PlainVal v
+  | .writeInt k _ => PlainKey k
+  | _ => True
+
+/-- the store after a history of operations (what `psvdriver C16` folds over its input lines) -/
+def runOps (st : Store) (ops : List Op) : Store := ops.foldl (fun s op => (step s op).2) st
+
+/-! ### an `int` still reads back after the padding of a FITS round trip -/
+
+theorem takeWhile_digits_blanks (ds : Str) (p : Nat) (hd : ∀ c ∈ ds, c.isDigit = true) :
+    (ds ++ blanks p).takeWhile Char.isDigit = ds := by
+  cases p with
+  | zero => simpa [blanks] using takeWhile_all _ _ hd
+  | succ p => exact takeWhile_append_stop _ ds ' ' (blanks p) hd (by decide)
+
+theorem parseBody_digits_pad (neg : Bool) (ds : Str) (p : Nat) (hd : ∀ c ∈ ds, c.isDigit = true) :
+    parseBody neg (ds ++ blanks p) = parseBody neg ds := by
+  unfold parseBody
+  rw [takeWhile_digits_blanks ds p hd, takeWhile_all _ _ hd]
+
+theorem parseInt_showInt_pad (n : Int) (p : Nat) (hlo : intMin ≤ n) (hhi : n ≤ intMax) :
+    parseInt (showInt n ++ blanks p) = (true, some n) := by
+  rw [← parseInt_showInt n hlo hhi]
+  unfold showInt
+  by_cases hn : n < 0
+  · simp only [hn, if_true]
+    unfold parseInt
+    have h1 : ∀ t, ('-' :: showNat n.natAbs ++ t).dropWhile isCSpace = '-' :: showNat n.natAbs ++ t := by
+      intro t; rw [List.cons_append, List.dropWhile_cons_of_neg]; decide
+    have h1' := h1 []
+    rw [List.append_nil] at h1'
+    simp only [h1', List.cons_append, List.isEmpty_cons, Bool.false_eq_true, if_false]
+    show parseBody true (showNat n.natAbs ++ blanks p) = parseBody true (showNat n.natAbs)
+    exact parseBody_digits_pad _ _ _ (showNat_allDigits _)
+  · simp only [hn, if_false]
+    unfold parseInt
+    obtain ⟨c, r, hcr⟩ : ∃ c r, showNat n.toNat = c :: r := by
+      cases h : showNat n.toNat with
+      | nil => exact absurd h (showNat_ne_nil _)
+      | cons c r => exact ⟨c, r, rfl⟩
+    have hc : c.isDigit = true := showNat_allDigits n.toNat c (by rw [hcr]; simp)
+    have h1 : ∀ t, (showNat n.toNat ++ t).dropWhile isCSpace = showNat n.toNat ++ t := by
+      intro t; rw [hcr, List.cons_append, List.dropWhile_cons_of_neg]; simp [not_space_of_digit c hc]
+    have h1' := h1 []
+    rw [List.append_nil] at h1'
+    simp only [h1, h1']
+    have h3 : ∀ t, (showNat n.toNat ++ t).isEmpty = false := by intro t; rw [hcr]; rfl
+    have h3' := h3 []
+    rw [List.append_nil] at h3'
+    simp only [h3, h3', Bool.false_eq_true, if_false]
+    have h2 : ∀ t, splitSign (showNat n.toNat ++ t) = (false, showNat n.toNat ++ t) := by
+      intro t; rw [hcr, List.cons_append]; exact splitSign_digit c _ hc
+    have h2' := h2 []
+    rw [List.append_nil] at h2'
+    rw [h2, h2']
+    exact parseBody_digits_pad _ _ _ (showNat_allDigits _)
+
 end PsV.Aux
